@@ -32,7 +32,7 @@ Lemma Sx_pre : forall cpp o l rb tb kb,
   (is_incdec (TOp (pre_opr o)) = true -> hd_is bad_after_incdec rb = false) ->
   Sx cpp ((l, TOp (pre_opr o)) :: rb) (U (l, TOp (pre_opr o)) tb) 1.
 Proof.
-  intros cpp o l rb tb kb IHb Hkb Hlead Hlab Hbad f d s rest out n Hrk Hd Hn Hlen Hop Hps Hj Hnd Hq Hq14 Hq1 Hc.
+  intros cpp o l rb tb kb IHb Hkb Hlead Hlab Hbad f d s rest out n Hrk Hd Hn Hlen Hop Hps Hj Hnd Hq Hq14 Hq1 Hz Hc.
   set (op := (l, TOp (pre_opr o))) in *.
   destruct n as [|n']; [unfold cont in Hc; rewrite lpn_0 in Hc; discriminate|].
   cbn [length] in Hn. cbn [app length] in Hlen. rewrite app_length in Hlen.
@@ -65,6 +65,7 @@ Proof.
         replace (rev rb ++ op :: bef s) with (rev (op :: rb) ++ bef s)
           by (cbn [rev]; rewrite <- app_assoc; reflexivity).
         apply Hq1. reflexivity.
+      - intros E. lia.
       - unfold mkafter. apply cont_quiet; [exact Hkb|]. intros r Hr. unfold s1. cbn [bef asgn stk depth].
         destruct r as [|r].
         + replace (rev rb ++ op :: bef s) with (rev (op :: rb) ++ bef s)
